@@ -37,6 +37,10 @@ def holder_roles(sim):
             roles[id(x)] = "recomputed"
     for ch in getattr(sim, "changes_list", []):
         roles[id(ch[1])] = "new-input"
+    # baseline values swapped out while the simulation is switched on (they are put back by reset_values)
+    for v in getattr(sim, "all_previous_obj_linked_to_mod_obj", []):
+        for x in ([v] + list(v.values()) if isinstance(v, dict) else [v]):
+            roles[id(x)] = "swapped-out-baseline-value"
     return roles
 
 
@@ -53,13 +57,13 @@ def graph_violations(objs, universe_objs=None, roles=None):
         for a in v.direct_ancestors_with_id:
             d = S.describe_value(a)
             if d.startswith("DETACHED") or d.startswith("SUPERSEDED"):
-                out.append(("ancestor-not-held", where, d, roles.get(id(v), "other")))
+                out.append(("ancestor-not-held", where, d, roles.get(id(v), "other"), roles.get(id(a), "unknown")))
             elif not any(c is v for c in a.direct_children_with_id):
                 out.append(("ancestor-without-back-link", where, d))
         for c in v.direct_children_with_id:
             d = S.describe_value(c)
             if d.startswith("DETACHED") or d.startswith("SUPERSEDED"):
-                out.append(("child-not-held", where, d, roles.get(id(v), "other")))
+                out.append(("child-not-held", where, d, roles.get(id(v), "other"), roles.get(id(c), "unknown")))
             elif not any(a is v for a in c.direct_ancestors_with_id):
                 out.append(("child-without-back-link", where, d))
     # cycles (DFS over children, by identity)
@@ -137,6 +141,7 @@ def run_state_task(task):
         sig = {"clause": clause, "where": where, "mode": mode, "letter": lc, "other": target + (":" + tgt_where if tgt_where else "")}
         if mode == "on":
             sig["holder"] = item[3] if len(item) > 3 else "other"
+            sig["other_is"] = item[4] if len(item) > 4 else "unknown"
         key = json.dumps(sig, sort_keys=True)
         if key in seen:
             continue
